@@ -98,6 +98,7 @@ pub fn known_fixture() -> (Message, Node, Account, i128) {
 fn deliver_fixed(m: &Message, node: &Node, acct: &Account, now: i128) -> Option<ValOut> {
     let mut t = Tape::replay(vec![]);
     let wire = render(m, &mut t, &RenderOpts {
+                mask: crate::world::NOISE_ALL,
         noise: 0,
         s3: node.cfg.s3,
         permute_pairs: false,
@@ -479,6 +480,14 @@ fn run_c09(t: &mut Tape, _tier: Tier) -> RunOut {
         mix.defect_kinds = vec!["bad-path-escape", "path-climb"];
         mix.max_defects = 1;
         mix.defect_p10 = 2;
+        mix.mask = NoiseMask {
+            path: true,
+            query: false,
+            headers: false,
+        };
+        mix.baseline = true;
+        mix.prov_pending = 0;
+        mix.sign.date_noise = 0;
         let mut j = |cx: &DeliveryCtx, out: &mut RunOut| {
             tamper_probes(cx, out);
             if let Verdict::Refuse(Rule::Path) = cx.expected {
@@ -488,7 +497,7 @@ fn run_c09(t: &mut Tape, _tier: Tier) -> RunOut {
                     _ => out.violate("C09", "fails-as-invalid-path-400", format!("reference refuses the path, library says {}; wire {}", cx.out.short(), cx.wire.describe())),
                 }
             }
-            judge_agreement(cx, out, "C09", "signer-and-verifier-agree-on-normal-form");
+            judge_component(cx, out, "C09", "signer-and-verifier-agree-on-normal-form", &[Rule::Path], true);
             judge_canonical(cx, out, &["C09"]);
         };
         return run_world(t, &mix, &mut j);
@@ -623,6 +632,14 @@ fn run_c10(t: &mut Tape, tier: Tier) -> RunOut {
         mix.defect_kinds = vec!["bad-query-escape"];
         mix.max_defects = 1;
         mix.defect_p10 = 1;
+        mix.mask = NoiseMask {
+            path: false,
+            query: true,
+            headers: false,
+        };
+        mix.baseline = true;
+        mix.prov_pending = 0;
+        mix.sign.date_noise = 0;
         let mut j = |cx: &DeliveryCtx, out: &mut RunOut| {
             tamper_probes(cx, out);
             if let Verdict::Refuse(Rule::Query) = cx.expected {
@@ -632,7 +649,7 @@ fn run_c10(t: &mut Tape, tier: Tier) -> RunOut {
                     _ => out.violate("C10", "malformed-escape-is-malformed-query-400", format!("reference refuses the query, library says {}; wire {}", cx.out.short(), cx.wire.describe())),
                 }
             }
-            judge_agreement(cx, out, "C10", "accept-refuse-independent-of-order-and-spelling");
+            judge_component(cx, out, "C10", "accept-refuse-independent-of-order-and-spelling", &[Rule::Query], true);
             judge_canonical(cx, out, &["C10"]);
         };
         return run_world(t, &mix, &mut j);
@@ -788,6 +805,7 @@ fn deliver_with_date(text: &str, t_sign: i128, now: i128, carrier: Carrier, tp: 
         home_node: 0,
     };
     let wire = render(&m, tp, &RenderOpts {
+                mask: crate::world::NOISE_ALL,
         noise: 0,
         s3: false,
         permute_pairs: false,
@@ -837,6 +855,16 @@ pub fn check_date_text(out: &mut RunOut, text: &str, carrier: Carrier, tp: &mut 
         (cls, Some(t)) => {
             if !in_chrono_range(t - refm::WINDOW_NS - 1) || !in_chrono_range(t + refm::WINDOW_NS + 1) {
                 return;
+            }
+            // baseline: the same instant in the plainest form (YYYYMMDDTHHMMSSZ) must be accepted;
+            // if even that fails, something other than timestamp handling is broken
+            let t_sec = t.div_euclid(refm::NS) * refm::NS;
+            match deliver_with_date(&refm::compact_utc(t_sec), t_sec, t_sec, carrier, tp) {
+                Some((b, _)) if b.is_ok() => {}
+                _ => {
+                    out.probe("baseline_refused_delivery_not_judged");
+                    return;
+                }
             }
             let must = cls == IsoClass::MustAccept;
             out.probe(if must {
